@@ -59,7 +59,7 @@ PROPS = {
                 "(debug assertions and overflow checks on, no tail-call elimination: recursion depth and arithmetic overflow show up there). " + LOCALE_RULE,
     },
     "C03": {"runs": lambda tier: [run("locale", ops=["locale", "extmap", "ext_type", "par_locale", "seq_locale"], features=["likely"])], "rule": LOCALE_RULE},
-    "C04": {"runs": lambda tier: [run("locale", ops=["loc_canonicalize", "loc_hist"], features=["likely"]), run("langid", ops=["li_canonicalize", "langid", "li_from_parts"])],
+    "C04": {"runs": lambda tier: [run("locale", ops=["loc_canonicalize", "loc_hist", "loc_built"], features=["likely"]), run("langid", ops=["li_canonicalize", "langid", "li_from_parts"])],
             "rule": LOCALE_RULE + " || " + LANGID_RULE},
     "C05": {"runs": lambda tier: [run("locale", ops=["loc_roundtrip", "extmap", "loc_canonicalize", "loc_hist", "loc_built"], features=["likely"]), run("langid", ops=["li_roundtrip", "li_canonicalize"])],
             "rule": LOCALE_RULE},
